@@ -10,6 +10,7 @@ import Mathlib.Data.List.Basic
 import Mathlib.Data.List.Perm.Basic
 import Mathlib.Tactic.Linarith
 import Mathlib.Tactic.Ring
+import PhotVerif.Gen.ForwardTable
 
 namespace PhotVerif.C12
 open PhotVerif.Model PhotVerif.Model.CCL PhotVerif.Model.PsfBook PhotVerif.CCLTheory PhotVerif.C04
@@ -144,5 +145,13 @@ theorem per_source_results_are_ungrouped :
     ("_calc_fit_metrics", "psfcenter_indices", true) ∈ Gen.PsfTable.groupResultReads ∧
     Gen.PsfTable.ungroupFlattensThenOrders = true ∧ Gen.PsfTable.orderByIdIndexesWithUngroupIndices = true := by
   decide
+
+/-! ### no delegating call in this property's modules drops an argument it holds (table regenerated from the source) -/
+
+/-- TABLE OBLIGATION: in the modules of this property, every call that delegates to another photutils function, method or
+    constructor passes on each value the caller holds under the callee's own parameter name (its own parameters, `self.<name>`
+    attributes set in `__init__`) - dropped `subpixels`, `mask`, `connectivity`, `include_localbkg` ... keywords were a recurring
+    kind of seeded change -/
+theorem no_dropped_arguments : Gen.ForwardTable.droppedIn Gen.ForwardTable.scopeC12 = [] := by decide
 
 end PhotVerif.C12
